@@ -40,7 +40,9 @@ class Connection:
         "Line {} is already connected to a GFA instance".format(self))
     previous = gfa._search_duplicate(self)
     if previous:
-      if previous.virtual:
+      if previous.virtual and \
+          (isinstance(previous, gfapy.line.Unknown) or
+           previous.record_type == self.record_type):
         return self._substitute_virtual_line(previous)
       else:
         return self._process_not_unique(previous)
